@@ -519,3 +519,63 @@ PROPS.update({
     "C13": dict(gen=gen_C13, configs=["dev", "rel"], judge=judge_C13, both_placements=True, assumptions=[]),
 })
 NOT_APPLICABLE = {}
+
+
+# ==========================================================================
+# C15
+# ==========================================================================
+USER_ELEMS = [(1, 1), (2, 2), (3, 1), (4, 4), (8, 8), (24, 8)]
+USER_FIXED = [0, 1, 4, 8, 12, 16]
+
+
+def gen_C15(rng, tier):
+    cases = []
+    dist = {"sized": 0, "dst": 0, "builtin": 0}
+
+    def tagbytes(size, typ=77):
+        n = (size + 7) // 8 * 8
+        return (E.u32(typ) + E.u32(size) + marker(max(0, n - 8), start=size))[:max(8, n)]
+
+    for size in range(8, 97):
+        for k in range(0, 7):
+            cases.append("cast 0 %d %s" % (k, hx(tagbytes(size))))
+            dist["sized"] += 1
+        for F in USER_FIXED:
+            for (es, ea) in USER_ELEMS:
+                cases.append("cast 1 %d %d %d %s" % (F, es, ea, hx(tagbytes(size))))
+                dist["dst"] += 1
+    # built-in kinds x sizes around their fixed sizes (through the typed getters of a loaded region)
+    if "mbi" in DOMAINS_READY:
+        sizes_for = lambda fixed: sorted(set(list(range(8, 41)) + list(range(max(8, fixed - 9), fixed + 17)) + [fixed + 24, fixed + 48, fixed + 100]))
+        for typ, fixed in BUILTIN_FIXED.items():
+            for s in sizes_for(fixed):
+                if tier == "quick" and rng.random() > 0.5 and abs(s - fixed) > 8:
+                    continue
+                body = bytearray(marker(max(0, (s + 7) // 8 * 8 - 8), start=typ + s))
+                neutralise(typ, body)
+                cases.append("mbi " + hx(E.mbi([E.tag(typ, bytes(body)[:max(0, s - 8)], size=s)])))
+                dist["builtin"] += 1
+    return cases, dict(
+        rule="cast: 7 sized user types (0..6 extra words) and 36 DST user types (fixed extra bytes {0,1,4,8,12,16} x element "
+             "(size,align) {(1,1),(2,2),(3,1),(4,4),(8,8),(24,8)}) x every tag size 8..96 (exhaustive); mbi: each of the 22 built-in "
+             "kinds in a one-tag region x sizes 8..40 and around its fixed size. Compared: panic or (address, size_of_val, element "
+             "count). distinct_nontrivial = distinct (domain, model transcript) pairs.",
+        dist=dist, exhaustive=True)
+
+
+# fixed (spec) sizes of the built-in kinds, by type number
+BUILTIN_FIXED = {1: 8, 2: 8, 3: 16, 4: 16, 5: 20, 6: 16, 7: 784, 8: 32, 9: 20, 10: 28, 11: 12, 12: 16, 13: 16, 14: 28,
+                 15: 44, 16: 8, 17: 16, 18: 8, 19: 12, 20: 16, 21: 12}
+DOMAINS_READY = set()
+
+
+def neutralise(typ, body):
+    """keep enum-typed bytes of a payload in range so that the harness may read them (VBE memory model)"""
+    if typ == 7 and len(body) > 555 - 8:
+        body[555 - 8] %= 8
+
+
+PROPS.update({
+    "C15": dict(gen=gen_C15, configs=["dev", "rel"], judge=judge_projection(["cast", "get"]), both_placements=True,
+                assumptions=["user-defined types of the harness (dom_cast.rs) declare BASE_SIZE = offset of the tail and dst_len = (size - BASE_SIZE)/element size"]),
+})
